@@ -7,9 +7,9 @@ without trailing zeros ("" = none, at most 9 digits: asn_time2GT_frac bounds the
 comma, trailing zeros, all-zero fraction, second 60).  The ORACLE is independent of the Coq model and of the C:
 `canon_gt` / `canon_ut` print the instant per X.690 11.7 / 11.8 using python's datetime, and `enc` encodes the
 nine small types of module T-TIME in DER / CANONICAL-XER / canonical UPER / canonical OER from those texts.
-`enc(..., mode="tree")` is the same encoder fed with what the unchanged tree does with a time leaf (only
-GeneralizedTime_encode_der canonicalises; everything else writes the stored text): the exact predicate of the
-findings C06-utctime-der-verbatim, C06-cxer-time-verbatim, C06-time-per-oer-verbatim."""
+`enc(..., mode="tree")` is the same encoder fed with what the tree does with a time leaf (the DER and the
+CANONICAL-XER encoders of both types canonicalise - UTCTime since fix 05 of notes/fixes/I -; the PER / OER encoders
+write the stored text): the exact predicate of the finding C06-time-per-oer-verbatim."""
 import datetime
 
 TIME_MODULE = """T-TIME DEFINITIONS AUTOMATIC TAGS ::= BEGIN
@@ -205,7 +205,8 @@ class EncFail(Exception):
 
 def leaf_text(lf, syn, mode):
     """the text written for a time leaf.  oracle: the canonical form; input: as stored;
-    tree: what the unchanged tree does (only GeneralizedTime_encode_der canonicalises; it fails on t = -1)"""
+    tree: what the tree does (the DER and CANONICAL-XER encoders canonicalise; on t = -1 - C17-time-minus-one - all fail but
+    UTCTime_encode_der, which writes a text asn_UT2time does not read as it is stored)"""
     if mode == "oracle":
         return lf["canon"]
     if mode == "tree" and syn in ("der", "cxer") and lf["form"].endswith(("/hourfrac", "/minfrac")) and (lf["kind"] == "gt"):
@@ -214,10 +215,12 @@ def leaf_text(lf, syn, mode):
         if lf["t"] == -1:
             raise EncFail("C17-time-minus-one")
         return lf["canon"]
+    if mode == "tree" and lf["kind"] == "ut" and syn == "der":
+        return lf["text"] if lf["t"] == -1 else lf["canon"]      # UTCTime_encode_der: asn_UT2time answers the error value for t = -1 -> stored text
     if mode == "tree" and syn == "cxer" and lf["t"] == -1:
         raise EncFail("C17-time-minus-one")      # the canonical XER encoders parse the text first
-    if mode == "tree" and syn == "cxer" and lf["kind"] == "gt":
-        return lf["canon"]                       # since fix d60e882 GeneralizedTime_encode_xer writes the canonical form (UTCTime: still the stored one)
+    if mode == "tree" and syn == "cxer":
+        return lf["canon"]                       # both *_encode_xer write the canonical form (fix d60e882, fix 05 of notes/fixes/I)
     return lf["text"]
 
 
@@ -358,12 +361,9 @@ def time_findings(tn, v, syn):
     ids = []
     if syn in ("der", "cxer") and any(l["form"].endswith(("/hourfrac", "/minfrac")) for l in ls):
         ids.append("C06-gt-fraction-of-hour-minute")
-    if (syn == "der" and any(l["kind"] == "gt" and l["t"] == -1 for l in ls)) or (syn == "cxer" and any(l["t"] == -1 for l in ls)):
+    if syn in ("der", "cxer") and any(l["t"] == -1 for l in ls):
+        # (DER of a UTCTime leaf with t = -1: not a failure, the stored text - which only differs from X.690 11.8 when it is not canonical)
         ids.append("C17-time-minus-one")
-    if syn == "der" and any(l["kind"] == "ut" and l["text"] != l["canon"] for l in ls):
-        ids.append("C06-utctime-der-verbatim")
-    if syn == "cxer" and any(l["kind"] == "ut" and l["text"] != l["canon"] for l in ls):
-        ids.append("C06-cxer-time-verbatim")
     if syn in ("cper", "coer") and any(l["text"] != l["canon"] for l in ls):
         ids.append("C06-time-per-oer-verbatim")
     if syn == "coer" and enc_oer(ty, v, "oracle", False) != enc_oer(ty, v, "oracle", True):
@@ -460,9 +460,9 @@ def unreadable(lf):
 
 
 def tree_compare(a, b):
-    """what GeneralizedTime_compare / UTCTime_compare of the unchanged tree answer for two readable leaves:
-    instants first; then, GeneralizedTime only, the fractions — by value when the digit counts agree, 'no fraction' below
-    any fraction, and otherwise (double)value / NUMBER OF DIGITS (sic)"""
+    """what GeneralizedTime_compare / UTCTime_compare of the tree (with C06-fix-9) answer for two readable leaves, its
+    arithmetic replayed: instants first; then, GeneralizedTime only, the fractions — by value when the digit counts
+    agree, otherwise (double)value / 10^digits on both sides (the scale built by repeated *= 10.0, exact)"""
     if a["t"] != b["t"]:
         return (a["t"] > b["t"]) - (a["t"] < b["t"])
     if a["kind"] == "ut":
@@ -470,9 +470,10 @@ def tree_compare(a, b):
     (av, ad), (bv, bd) = c_fraction(a["text"]), c_fraction(b["text"])
     if ad == bd:
         return (av > bv) - (av < bv)
-    if ad == 0:
-        return -1
-    if bd == 0:
-        return 1
-    x, y = av / ad, bv / bd
+    ascale = bscale = 1.0
+    for _ in range(ad):
+        ascale *= 10
+    for _ in range(bd):
+        bscale *= 10
+    x, y = float(av) / ascale, float(bv) / bscale
     return (x > y) - (x < y)
